@@ -10,7 +10,8 @@ Grid spec (JSON-able dict)::
      "pert": [[node, [ix, iy, iz]], ...],     # node offsets in units of 0.1 (h = 1)
      "affine": "id" | "shear" | "rotscale",  # exact dyadic affine image
      "scale": 1e-3 | 1e3,                    # uniform scaling of all node coordinates
-     "periodic": [axis, ...]}                # C/Tensor only: identify low/high sides
+     "periodic": [axis, ...],                # C/Tensor only: identify low/high sides
+     "embed": "rx45" | "gen" | "gen2"}       # 2-d only: rotate into a tilted plane of 3-d space and translate
 
 All grids have unit spacing before perturbation (except Tensor). Perturbing nodes of
 hexahedra would make faces non-planar, so ``pert`` is only admitted for 2-d grids and for
@@ -41,6 +42,22 @@ AFFINE = {
 }
 
 
+def _rodrigues(axis, angle):
+    a = np.array(axis, dtype=float)
+    a /= np.linalg.norm(a)
+    A = np.array([[0, -a[2], a[1]], [a[2], 0, -a[0]], [-a[1], a[0], 0]])
+    return np.eye(3) + np.sin(angle) * A + (1 - np.cos(angle)) * (A @ A)
+
+
+# orthogonal maps (all non-symmetric) used to embed planar 2-d grids in a tilted plane of 3-d space
+EMBED = {
+    "rx45": _rodrigues([1.0, 0.0, 0.0], np.pi / 4),
+    "gen": _rodrigues([1.0, 2.0, 0.5], 0.7),
+    "gen2": _rodrigues([-1.0, 0.5, 2.0], 2.1),
+}
+EMBED_SHIFT = np.array([0.3, -1.2, 0.7])
+
+
 def grid_name(spec) -> str:
     if spec["kind"] == "Tensor":
         s = "Tensor(" + ";".join(",".join(f"{v:g}" for v in c) for c in spec["coords"]) + ")"
@@ -56,6 +73,8 @@ def grid_name(spec) -> str:
         s += f"*{spec['scale']:g}"
     if spec.get("periodic"):
         s += "/per" + "".join("xyz"[a] for a in spec["periodic"])
+    if spec.get("embed"):
+        s += "^" + spec["embed"]
     return s
 
 
@@ -117,7 +136,13 @@ def build_grid(spec):
     scale = float(spec.get("scale", 1.0))
     if scale != 1.0:
         g.nodes = scale * g.nodes
-    if pert or spec.get("affine", "id") != "id" or scale != 1.0:
+    plane_normal = None
+    if spec.get("embed"):
+        assert dim == 2
+        Q = EMBED[spec["embed"]]
+        g.nodes = Q @ g.nodes + scale * EMBED_SHIFT[:, None]
+        plane_normal = Q[:, 2].copy()
+    if pert or spec.get("affine", "id") != "id" or scale != 1.0 or spec.get("embed"):
         g.compute_geometry()
     periodic_pairs = None
     per = spec.get("periodic") or []
@@ -144,7 +169,7 @@ def build_grid(spec):
     # sanity of the letter itself (not of the code under test): positive volumes
     assert np.all(g.cell_volumes > 0)
     info = {"bfaces": bfaces, "side": side, "sgn": sgn, "interior_nodes": interior_nodes, "dim": dim,
-            "periodic_pairs": periodic_pairs}
+            "periodic_pairs": periodic_pairs, "plane_normal": plane_normal}
     return g, info
 
 
@@ -189,6 +214,9 @@ def k_matrix(letter: str, dim: int) -> np.ndarray:
             K = R2 @ np.diag([1.0, 10.0, 1.0]) @ R2.T
         else:
             K = np.diag([10.0, 1.0, 1.0])
+    elif letter == "plane":
+        # anisotropic within the xy-plane, not aligned with its axes, plane normal principal
+        K = np.array([[3.0, 1.2, 0.0], [1.2, 2.0, 0.0], [0.0, 0.0, 0.7]])
     else:
         raise ValueError(letter)
     K = 0.5 * (K + K.T)
@@ -400,3 +428,18 @@ def dense_copy(md) -> dict:
         else:
             out[k] = np.array(v.toarray())
     return out
+
+
+def k_matrix_embedded(letter: str, spec) -> np.ndarray:
+    """Constant 3x3 SPD tensor in *global* coordinates for an embedded 2-d grid.
+    'Qplane' / 'Qdiag': the tensor 'plane' / diag(1,4,9) carried along with the plane (Q K Q^T);
+    other letters: the 3-d tensor of that name taken as it is in global coordinates, so that its
+    restriction to the tilted plane is anisotropic and not aligned with the plane axes."""
+    Q = EMBED[spec["embed"]]
+    if letter == "Qplane":
+        K = Q @ k_matrix("plane", 3) @ Q.T
+    elif letter == "Qdiag":
+        K = Q @ k_matrix("diag", 3) @ Q.T
+    else:
+        K = k_matrix(letter, 3)
+    return 0.5 * (K + K.T)
